@@ -38,6 +38,28 @@ KNOWN_LANG_EXT = (".py", ".js", ".ts", ".tsx", ".jsx", ".rs")
 def gen(run_seed: int, tier: str) -> dict:
     t = Tape(seed=run_seed)
     nh = 4 + t.draw(6, "healthy")
+    focus = t.chance(1, 6, "focus")
+    if focus:
+        # focused scenario: one language, dense cross-file evidence, one offender of that language whose single
+        # fault leaves the file *inside* a multi-line construct - what a line-based state machine trips over
+        flang = t.pick(["python", "python", "typescript", "javascript", "rust"], "focus_lang")
+        world = cpool.gen_world(t, nh, langs=[flang], dense=True)
+        world.pop("meta", None)
+        base = cpool.gen_file(t, flang, "o0", [0], [0])
+        kind = t.pick(["open_construct", "open_construct", "truncate_line", "stray_line"], "focus_kind")
+        if kind == "open_construct":
+            f = {"kind": kind, "p": [t.draw(8, "fault.which"), t.draw(2, "fault.where"), t.draw(1 << 20, "fault.pos")]}
+        else:
+            f = faults.draw_fault(t, base.encode(), flang, False)
+            while f["kind"] != kind:
+                f = faults.draw_fault(t, base.encode(), flang, False)
+        d = t.pick(cpool.DIRS[:8], "off.dir")
+        # a name that sorts before the healthy files of its directory
+        rel = (d + "/" if d else "") + f"aaa_offender_0{cpool.LANG_EXT[flang]}"
+        cmds = t.sample(CLI_CMDS, 2, "cmds")
+        return {"world": world, "offenders": [{"rel": rel, "lang": flang, "base": base, "faults": [f]}], "cmds": cmds,
+                "fmt": t.pick(["json", "text", "sarif"], "fmt"), "probe": None, "focus": True,
+                "W": 1 + t.draw(4, "W"), "knobs": {"shape": "random", "exec_at": "dispatch"}, "sched_seed": mix(run_seed, "sched")}
     world = cpool.gen_world(t, nh)
     world.pop("meta", None)
     offenders = []
@@ -256,7 +278,13 @@ def _execute(zy, sc: dict, W: World) -> dict:
         ofiles = [str(W.proj / r) for r in offs]
         b0 = zy.call("vsim.ops:api_call", {"env": _env(W, sc, "tap-b0.jsonl"), "root": root, "method": "lint_files", "paths": hfiles},
                      timeout=op_timeout, exit="_exit")
-        for rot in range(min(2, len(hfiles))):
+        # start the healthy list at files of the offenders' own languages: those are analysed by the very
+        # analyzer objects the damage went through
+        olangs = {o["lang_final"] for o in offs.values()}
+        starts = [i for i, r in enumerate(sorted(sc["world"]["files"])) if _final_lang(r, b"") in olangs][:3] or [0]
+        if 0 not in starts:
+            starts = [0] + starts[:2]
+        for rot in starts:
             order = ofiles + hfiles[rot:] + hfiles[:rot]
             of = zy.call("vsim.ops:api_call", {"env": _env(W, sc, "tap-of.jsonl"), "root": root, "method": "lint_files", "paths": order},
                          timeout=op_timeout, exit="_exit")
